@@ -6,7 +6,7 @@
     nothing else); and what [write_dir] puts on the device [read_dir] — which is all a later mount has — reads back,
     entry for entry, for the fixed root region and for cluster-chain directories. *)
 From Coq Require Import ZArith List Bool Lia FMapPositive.
-From PyFatV Require Import Base.Bytes Base.PyEnv Gen.Pure Model.Codec Model.Dir Model.FS Proofs.Session Proofs.FatCodec Proofs.Device Proofs.DirCodec Proofs.DirState Proofs.Chains Proofs.FatState Proofs.HdrState Proofs.Names.
+From PyFatV Require Import Base.Bytes Base.PyEnv Gen.Pure Model.Codec Model.Dir Model.FS Proofs.Session Proofs.FatCodec Proofs.Device Proofs.DirCodec Proofs.DirState Proofs.Chains Proofs.FatState Proofs.HdrState Proofs.Identity Proofs.Remount Proofs.Names.
 Import ListNotations.
 Open Scope Z_scope.
 
@@ -80,7 +80,32 @@ Theorem C03_bootsector_persists : forall s s',
   parse_hdr (rd s' 0 512) = s_h s /\ s_h s' = s_h s /\ s_fat s' = s_fat s /\ dev_ok (s_dev s').
 Proof. exact write_bpb_persists. Qed.
 Print Assumptions C03_bootsector_persists.
-(* C03_remount (not proved): for all histories and quiescent states, tree_of (mount (image s)) = tree_of s. *)
+(** ... and the three composed: closing, then mounting the device again read-only, yields EXACTLY the closed state
+    (header, geometry, table, reserved bits, device; log, handles and hint reset), reported clean; so every read-only
+    observation of the re-mounted filesystem is the observation of the closed one.  The hypotheses are the invariants a
+    mount establishes (well-formed verified header, geometry computed from it, table as long as the FAT region, FAT12:
+    table already flushed) plus the layout facts of any valid volume. *)
+Theorem C03_remount_closed : forall s s2 pc es,
+  let bk := BPB_BkBootSec (s_h s) * bps s in
+  dev_ok (s_dev s) ->
+  hdr_wf (s_h s) -> Gen.verify_bpb_header (s_h s) = Ok tt ->
+  s_p s = set_bytes_per_cluster (Gen.parse_header_geometry pf_init (s_h s)) (BPB_BytsPerSec (s_h s) * BPB_SecPerClus (s_h s)) ->
+  0 <= BS_Reserved1 (s_h s) < 256 -> 512 <= s_dsize s ->
+  512 <= fat_start s -> 1 <= BPB_NumFATs (s_h s) -> fat_start s + BPB_NumFATs (s_h s) * fat_bytes s <= s_dsize s ->
+  (ft s = Gen.FAT_TYPE_FAT32 -> 512 <= bk /\ bk + 512 <= fat_start s) ->
+  fat_wf (upd_fat s (fat_c s) (s_hint s)) -> lenZ (pack_fat (ft s) (fat_c s) (s_hi s)) = fat_bytes s ->
+  (ft s <> 32 -> s_hi s = []) ->
+  (shutdown_mask (ft s) = None -> parse_fat (ft s) (rd s (fat_start s) (fat_bytes s)) = s_fat s) ->
+  (forall m, shutdown_mask (ft s) = Some m -> Z.land (Z.lor (nthZ (s_fat s) 1) m) m = m /\ 1 < lenZ (s_fat s)) ->
+  mark_clean s = Ok s2 ->
+  read_dir s2 (root_loc s2) = Ok es ->
+  mount (s_dev s2) (s_dsize s) true pc = Ok (reset s2 true pc, false).
+Proof. exact close_then_mount_ro. Qed.
+Print Assumptions C03_remount_closed.
+Theorem C03_remounted_dirs : forall s ro pc loc, read_dir (reset s ro pc) loc = read_dir s loc.
+Proof. exact read_dir_reset. Qed.
+Print Assumptions C03_remounted_dirs.
+(* C03_remount over histories (not proved): for all histories and quiescent states, tree_of (mount (image s)) = tree_of s. *)
 
 (** the hypotheses are satisfiable: a 4113-sector FAT12 volume (64 root entries, 512-byte clusters), an entry with a
     14-unit long name, written to the root region and to the one-cluster directory at cluster 2, read back *)
@@ -187,4 +212,55 @@ Proof.
   assert (H12 : hdr_wf ex_hdr12) by (split; [vm_compute; repeat split; try discriminate; reflexivity | vm_compute; repeat split; reflexivity]).
   assert (H32 : hdr_wf ex_hdr32) by (split; [vm_compute; repeat split; try discriminate; reflexivity | reflexivity]).
   split; [exact H12|]. split; [exact H32|]. split; apply parse_ser_hdr; assumption.
+Qed.
+
+(** remount, non-vacuity: the FAT16 volume of C16's example, dirty after its mount, closed and mounted again read-only *)
+From PyFatV Require Import Properties.C16.
+Example C03_remount_example :
+  mark_clean ex16_s1 = Ok ex16_s2 /\ mount (s_dev ex16_s2) (s_dsize ex16_s1) true false = Ok (reset ex16_s2 true false, false) /\
+  s_fat ex16_s2 <> s_fat ex16_s1 /\ s_h ex16_s2 <> s_h ex16_s1.
+Proof.
+  assert (E2 : mark_clean ex16_s1 = Ok ex16_s2) by (vm_compute; reflexivity).
+  split; [exact E2|]. split.
+  - assert (Hd : dev_ok (s_dev ex16_s1)).
+    { destruct C16_mount_close_example as (_ & _ & _). (* the device of ex16_s1 is a fold of writes over the empty device *)
+      assert (E1 : mark_dirty ex16_s0 = Ok ex16_s1) by (vm_compute; reflexivity).
+      destruct (mark_dirty_shape _ _ E1) as ((_ & D1) & _). rewrite D1. apply apply_log_ok.
+      - unfold ex16_s0. destruct (do a <- write_bpb ex16_init; flush_fat a) as [sx|] eqn:Ex; [|vm_compute in Ex; discriminate].
+        cbn [s_dev upd_dev]. destruct (write_bpb ex16_init) as [sa|] eqn:Ea; [|discriminate]. cbn [bind] in Ex.
+        apply wrote_write_bpb in Ea. unfold flush_fat in Ex. destruct (s_ro sa); [discriminate|]. apply wrote_flush_copies in Ex.
+        destruct Ex as (_ & Db & _). rewrite Db, (proj1 (proj2 Ea)). apply apply_log_ok; [apply apply_log_ok; [apply dev_ok_empty|]|].
+        + apply Forall_forall. intros w Hw. assert (Hb : forallb (fun w => 0 <=? fst w) (bpbW (s_h ex16_init) (ft ex16_init =? Gen.FAT_TYPE_FAT32) (BPB_BkBootSec (s_h ex16_init) * bps ex16_init)) = true) by (vm_compute; reflexivity).
+          rewrite forallb_forall in Hb. specialize (Hb w Hw). lia.
+        + apply Forall_forall. intros w Hw.
+          match type of Hw with In _ ?L => assert (Hb : forallb (fun w => 0 <=? fst w) L = true) end.
+          { destruct Ea as (_ & _ & Hh & Hp & Hf & Hhi & _). unfold fat_start, fat_bytes, bps, ft. rewrite Hh, Hp, Hf, Hhi. vm_compute. reflexivity. }
+          rewrite forallb_forall in Hb. specialize (Hb w Hw). lia.
+      - apply Forall_forall. intros w Hw.
+        match type of Hw with In _ ?L => assert (Hb : forallb (fun w => 0 <=? fst w) L = true) by (vm_compute; reflexivity) end.
+        rewrite forallb_forall in Hb. specialize (Hb w Hw). lia. }
+    assert (Hroot : exists es, read_dir ex16_s2 (root_loc ex16_s2) = Ok es) by (eexists; vm_compute; reflexivity).
+    destruct Hroot as (es & Hroot).
+    apply (close_then_mount_ro ex16_s1 ex16_s2 false es Hd).
+    + split; [vm_compute; repeat split; try discriminate; reflexivity | vm_compute; repeat split; reflexivity].
+    + vm_compute. reflexivity.
+    + vm_compute. reflexivity.
+    + vm_compute. split; [discriminate|reflexivity].
+    + vm_compute. discriminate.
+    + vm_compute. discriminate.
+    + vm_compute. discriminate.
+    + vm_compute. discriminate.
+    + intros H. vm_compute in H. discriminate.
+    + right. left. split; [vm_compute; reflexivity|]. unfold ent_ok. apply Forall_forall. intros x Hx.
+      assert (Hb : forallb (fun x => (0 <=? x) && (x <? 65536)) (s_fat (upd_fat ex16_s1 (fat_c ex16_s1) (s_hint ex16_s1))) = true) by (vm_compute; reflexivity).
+      rewrite forallb_forall in Hb. specialize (Hb x Hx). change (2 ^ 16) with 65536. lia.
+    + vm_compute. reflexivity.
+    + intros _. vm_compute. reflexivity.
+    + intros H. vm_compute in H. discriminate.
+    + intros m Hm. vm_compute in Hm. inversion Hm; subst m. vm_compute. split; reflexivity.
+    + exact E2.
+    + exact Hroot.
+  - split; intro H.
+    + apply (f_equal (fun l => nthZ l 1)) in H. vm_compute in H. discriminate.
+    + apply (f_equal BS_Reserved1) in H. vm_compute in H. discriminate.
 Qed.
